@@ -100,8 +100,9 @@ def rankSamples (m : Mode) (vA : C08.View) (fp : List (List Int)) (p : List Int)
     | some a => some (some a)
     | none => if m = .constant then some none else none
 
-/-- sorted element number `idx` of the values read -/
-def sortedAt (idx : Nat) (vs : List Val) : Val := ((vs.mergeSort C07.leB)[idx]?).getD 0
+/-- sorted element number `idx` of the values read: `C07.kthSmallest` (structurally recursive, so the
+kernel can evaluate it; equal to `C07.nthElement` = `(mergeSort vs)[idx]?` by `C07.kthSmallest_eq_nthElement`) -/
+def sortedAt (idx : Nat) (vs : List Val) : Val := (C07.kthSmallest vs idx).getD 0
 
 def rankPixel (m : Mode) (rank : Nat) (vA vOut : C08.View) (fp : List (List Int)) (i : Nat) : List RStep :=
   let s := rankSamples m vA fp (unravelI vA.shape i)
